@@ -42,9 +42,9 @@ func collectTermCases(c *vf.Check, module, cfg string, consts map[string]string,
 // through the public API.
 func C08(c *vf.Check) {
 	consts := map[string]string{
-		"MaxSize":  tier(c, "3", "4"),
-		"TapeLen":  tier(c, "3", "2"),
-		"MaxCalls": tier(c, "4", "5"),
+		"MaxSize":  "3",
+		"TapeLen":  tier(c, "3", "4"),
+		"MaxCalls": tier(c, "4", "6"),
 	}
 	budget := 30
 	cases, res := collectTermCases(c, "MC_Seq", "MC_Seq.cfg", consts, tier(c, 10*time.Minute, 60*time.Minute))
